@@ -16,10 +16,10 @@ from concurrent.futures import ThreadPoolExecutor
 import vlib
 from vlib import log
 
-SETTINGS = ["ttl", "port", "token", "pow", "dir", "persistent", "aap"]
+SETTINGS = ["ttl", "port", "token", "pow", "dir", "persistent", "aap", "minttl", "maxttl"]
 BOOLS = ("persistent", "aap")
 DEVS = (("dev_shallowmerge", "C32_Winner"), ("dev_nocyclecheck", "C32_NoHang"), ("dev_missingignored", "C32_MissingReported"),
-        ("dev_profilebeatsflag", "C32_Winner"), ("dev_envprofilewins", "C32_Winner"))
+        ("dev_profilebeatsflag", "C32_Winner"), ("dev_envprofilewins", "C32_Winner"), ("dev_windowasunit", "C32_Winner"))
 REACH = ("Reach_EnvSelectedDeepChain", "Reach_CycleError", "Reach_MissingError", "Reach_FlagOverEnvProfile")   # one run, -continue
 MAX_ABNORMAL = 12       # hang/crash events after which the remaining cases are not replayed any more
 
@@ -354,7 +354,7 @@ def e2e_case(exe, e, kept, rundir, cwd, rng):
             code = (m.group(1) or m.group(2)) if m else ""
             if proc.returncode == 0 or code in ("", "E_UNEXPECTED"):
                 raise vlib.MachineryError("daemon of case %d ended (rc=%s) without a CLI error: %s" % (e["id"], proc.returncode, out[-800:]))
-            return "error", code, {s: -1 for s in SETTINGS if s != "aap"}
+            return "error", code, {s: -1 for s in SETTINGS if s not in ("aap", "minttl", "maxttl")}
 
         def field(rx):
             m = re.search(rx, text)
